@@ -477,14 +477,17 @@ def forbidden_categories(case: dict, obs: dict, snap: dict[str, str], roots: lis
             ex.add(p)
     cats["exclude-match"] = ex
     cats["outside-paths"] = {p for p in snap if not any(under(p, r) for r in roots)}
-    cats["directory-node-match"] = directory_node_matches(case, snap)
+    cats["directory-node-match"] = directory_node_matches(case, snap, roots)
     return cats
 
 
-def directory_node_matches(case: dict, snap: dict[str, str]) -> set[str]:
-    """Files a declared DirectoryNode(root_dir, pattern) resolves to (patterns generated here have one component)."""
+def directory_node_matches(case: dict, snap: dict[str, str], roots: list[str]) -> set[str]:
+    """Files a DirectoryNode(root_dir, pattern) declared by a *collected* task resolves to (patterns generated here
+    have one component; the declaring module is `task_dn.py` in the project root)."""
     root = case["root"]
     dn = set()
+    if not any(under(f"{root}/{m}", r) for m in case["modules"] if m == "task_dn.py" for r in roots):
+        return dn
     for d in case.get("dirnodes", []):
         for p in snap:
             par = f"{root}/{d['dir']}"
@@ -515,7 +518,7 @@ def model_line(case: dict, obs: dict, snap: dict[str, str], roots: list[str], mo
         "config=" + (enc_path(f"{V}/{root}/pyproject.toml") if case["has_cfg"] else "-"),
         "mods=" + ",".join(enc_path(f"{V}/{m}") for m in collected_modules(case, roots)),
         "nodes=" + ",".join(enc_path(f"{V}/{n}") for n in declared_nodes(case, roots)),
-        "dnodes=" + ",".join(enc_path(f"{V}/{n}") for n in sorted(directory_node_matches(case, snap))),
+        "dnodes=" + ",".join(enc_path(f"{V}/{n}") for n in sorted(directory_node_matches(case, snap, roots))),
         "excl=" + ",".join(enc(p.replace("{W}", V)) for p in effective_patterns(case)),
         "dirs=" + ("1" if any(a in ("-d", "--directories") for a in case["args"]) else "0"),
         "mode=" + mode,
